@@ -9,7 +9,7 @@ COMMON_ASSUME = [
 ]
 SCHED = "gran 0 = goroutine switches only where a goroutine blocks, yields (runtime.Gosched, time-consuming stub I/O) or exits; all such macro-step interleavings are explored (sleep sets prune only commuting orders). gran 1 = additionally before every Lock/channel/WaitGroup/Cond operation and go statement, with at most P preemptions"
 
-def run(h, P=0, gran=0, params=None, budget=240, labels=None, reach=None, native=None, maporder=False, timers=None, reuse=None):
+def run(h, P=0, gran=0, params=None, budget=600, labels=None, reach=None, native=None, maporder=False, timers=None, reuse=None):
     r = {"harness": h, "P": P, "gran": gran, "budget_s": budget}
     if params: r["params"] = params
     if labels: r["labels"] = labels
